@@ -25,7 +25,7 @@ ASSUMPTIONS = ["include_undocumented_* at defaults", "declarations are directly 
                "definition", "'[, ...]' rendering of variadic members is not constrained"]
 BUDGET = {"quick": {"shards": 8, "examples": 200}, "thorough": {"shards": 16, "examples": 3000}}
 
-PATTERNS = ["", "", "^[^_]*_", "[^a-z]+", "\\W+", "(?s)_.*", "^_", "_$", "^[a-z]{1,3}_", "[0-9]+", "(?i)^arg_", "^v", "_name$"]
+PATTERNS = ["", "", "_", "[aeiou]", "^[^_]*_", "[^a-z]+", "\\W+", "(?s)_.*", "^_", "_$", "^[a-z]{1,3}_", "[0-9]+", "(?i)^arg_", "^v", "_name$"]
 
 
 def _doc():
